@@ -175,6 +175,9 @@ where
         let mut runner = TestRunner::new_with_rng(config, rng);
         let mut stats = Stats::new();
         let mut found = None;
+        let journal = std::env::var("PV_JOURNAL").is_ok();
+        let journal_path = verif_root().join("evidence").join("replays").join(format!("journal-{}-{}-{}.json", cfg.prop, cfg.label, shard));
+        if journal { let _ = std::fs::create_dir_all(journal_path.parent().unwrap()); }
         for _ in 0..cfg.cases_per_shard {
           let mut tree = match strategy.new_tree(&mut runner) {
             Ok(t) => t,
@@ -182,6 +185,14 @@ where
           };
           let v = tree.current();
           stats.evaluations += 1;
+          // Journal mode (second pass after the process died): the case about to be evaluated is written out first, so
+          // that the case that kills the process can be identified afterwards.
+          let write_journal = |v: &V| {
+            let tmp = journal_path.with_extension("tmp");
+            let doc = json!({ "property": cfg.prop, "label": cfg.label, "seed": cfg.seed, "failure": "process died while evaluating this case", "signature": Value::Null, "pretty": pretty(v), "case": serde_json::to_value(v).unwrap_or(Value::Null) });
+            if std::fs::write(&tmp, serde_json::to_string(&doc).unwrap_or_default()).is_ok() { let _ = std::fs::rename(&tmp, &journal_path); }
+          };
+          if journal { write_journal(&v); }
           let r = guarded(|| check(&v, &mut stats));
           let f = match r {
             Ok(()) => continue,
@@ -200,6 +211,7 @@ where
               iters += 1;
               if iters > cfg.max_shrink_iters { break; }
               let c = tree.current();
+              if journal { write_journal(&c); }
               let r = guarded(|| check(&c, &mut dummy));
               let failing = match r {
                 Err(f) if known.attributed(&f).is_none() => Some(f),
@@ -215,6 +227,7 @@ where
           found = Some(Found { case, failure: best.1, shard, pretty: pretty(&best.0) });
           break;
         }
+        if journal { let _ = std::fs::remove_file(&journal_path); }
         (stats, found)
       }).expect("spawn")
     }).collect();
